@@ -365,7 +365,7 @@ theorem compile_gstmt : ∀ (fuel : Nat),
             simp only [hne, hnt', Bool.false_eq_true, if_false]
             refine bind_run _ _ _ _ _ _ (hGE (f' + 1) (by omega) _ cs hcall
               (by simp only [Frag.cdE]; omega) L c0 env hwsE) ?_
-            simp only [Expr.ty, hnn, Bool.not_false, if_true]
+            simp only [Expr.ty, hnn, Bool.not_false, Bool.true_or, if_true]
             rw [emit_run_S]
             simp only [List.append_assoc]
           · -- `throw(a)`
@@ -406,10 +406,10 @@ theorem compile_gstmt : ∀ (fuel : Nat),
               simp only [List.append_assoc]
             · simp only [Expr.ty]
               by_cases hn : cty.isNull = true
-              · simp only [hn, Bool.not_true, Bool.false_eq_true, if_false, if_true, List.append_nil]
+              · simp only [hn, Bool.not_true, Expr.isSpawn, Bool.or_self, Bool.false_eq_true, if_false, if_true, List.append_nil]
                 rfl
               · have hn' : cty.isNull = false := by simpa using hn
-                simp only [hn', Bool.not_false, if_true, Bool.false_eq_true, if_false]
+                simp only [hn', Bool.not_false, Bool.true_or, if_true, Bool.false_eq_true, if_false]
                 rw [emit_run_S]
                 simp only [List.append_assoc]
         · -- `try { … } catch e { … }`
